@@ -137,6 +137,8 @@ Definition c14_step (m : tm) (o : op) (ob : obs) : Z * tm :=
       let due := filter (fun e => (Nat.eqb (fst e) c && negb (mem (snd e) (k_held m)) && negb (active m (snd e))) = true)
                         (k_tracked m) in
       if existsb (fun e => negb (mem (snd e) reqs)) due then (405, m) else
+      (* nothing confirmed in a processed block (and not announced again since) is asked for *)
+      if existsb (fun t => mem t (k_confirmed m)) reqs then (407, m) else
       let '(code, m1) := fold_left (fun '(code, m) t => if code =? 0 then on_request m t else (code, m)) reqs (0, m) in
       (code, TM (k_last m1) (k_held m1)
                 (filter (fun e => negb (Nat.eqb (fst e) c && (mem (snd e) reqs || mem (snd e) (k_held m))) = true) (k_tracked m1))
